@@ -612,3 +612,93 @@ def validate_tabulation_objects(run, kinds=("lammps", "dlpoly", "setfl", "setfl_
                                    nr, cut, nrho, cutrho, len(els), "same text" if real == gen else ("real %r generated %r" % (real[:80], str(gen)[:80]) if "raised" in (real[:6], str(gen)[:6]) else _first_diff(real, gen)),
                                    buf.nwrites, a["writes"]))
     return len(cases)
+
+
+def validate_eam_builder(run, n=60):
+    """the regenerated EAM_Potential_Builder (zero-filling and strict) against the real class on generated potable models: which elements are built, in which order,
+    with which atomic number / mass / lattice constant / lattice type (reference data, [Species] overrides, defaults) and which functions (zero where undeclared)"""
+    from atsim.potentials.config import ConfigParser
+    from atsim.potentials.config._potential_form_registry import Potential_Form_Registry
+    from atsim.potentials.config._modifier_registry import Modifier_Registry
+    from atsim.potentials.config._eam_potential_builder import EAM_Potential_Builder
+    from atsim.potentials.config._common import ConfigurationException
+    from atsim.potentials.referencedata import Reference_Data, Reference_Data_Exception
+    ok, log = build_gen()
+    if not ok:
+        run.tie_broken("translator", "Gen/Logic.lean (EAM builder)", "the regenerated definitions (or their driver) do not build: " + log[-600:])
+        return 0
+    rng = run.rng
+    pool = ["Al", "Cu", "Fe", "Zn", "Sn", "Xx", "Qq", "Mg"]
+    cases, reqs = [], []
+    for _ in range(n):
+        labels = rng.sample(pool, rng.randint(1, 5))
+        emb = [l for l in labels if rng.random() < 0.75]
+        den = [l for l in labels if rng.random() < 0.75]
+        rng.shuffle(emb)
+        rng.shuffle(den)
+        fid = [0]
+
+        def nf():
+            fid[0] += 1
+            return fid[0]
+        erows = [(l, nf()) for l in emb]
+        drows = [(l, nf()) for l in den]
+        species = {}
+        for l in labels:
+            if l in ("Xx", "Qq"):
+                props = {}
+                if rng.random() < 0.85:
+                    props["atomic_number"] = rng.randint(1, 99)
+                if rng.random() < 0.85:
+                    props["atomic_mass"] = rng.randint(2, 400) / 2.0
+                if rng.random() < 0.5:
+                    props["lattice_constant"] = rng.randint(2, 20) / 4.0
+                if rng.random() < 0.5:
+                    props["lattice_type"] = rng.choice(["bcc", "hcp"])
+                if props:
+                    species[l] = props
+            elif rng.random() < 0.3:
+                species[l] = {"atomic_mass": rng.randint(2, 400) / 2.0}
+        add_undefined = rng.random() < 0.8
+        text = "[Tabulation]\ntarget : setfl\ncutoff : 4.0\nnr : 8\ncutoff_rho : 2.0\nnrho : 4\n\n[Pair]\n\n[EAM-Embed]\n"
+        text += "".join("%s : >=0 as.polynomial %d.0 1.0\n" % (l, 64 * f) for l, f in erows) + "\n[EAM-Density]\n"
+        text += "".join("%s : >=0 as.polynomial %d.0 1.0\n" % (l, 64 * f) for l, f in drows)
+        if species:
+            text += "\n[Species]\n" + "".join("%s.%s : %s\n" % (l, k, v) for l, pr in species.items() for k, v in pr.items())
+        cp = ConfigParser(io.StringIO(text))
+        rd = Reference_Data(cp.species)
+
+        def ref(l, what):
+            try:
+                return rd.get(l, what)
+            except Reference_Data_Exception:
+                return None
+        meta = []
+        for l in labels:
+            row = dict(sp=l)
+            for key, what, conv in (("z", "atomic_number", int), ("mass", "atomic_mass", lambda v: common.fq(Fr(v))), ("a0", "lattice_constant", lambda v: common.fq(Fr(v))), ("lat", "lattice_type", str)):
+                v = ref(l, what)
+                if v is not None:
+                    row[key] = conv(v)
+            meta.append(row)
+        reqs.append(dict(op="eam_builder", embed=[dict(sp=l, fid=f) for l, f in erows], density=[dict(sp=l, fid=f) for l, f in drows], meta=meta, add_undefined=add_undefined,
+                         reverse=rng.random() < 0.5))
+        cases.append((text, cp, rd, add_undefined))
+    bad = 0
+    for (text, cp, rd, add_undefined), a in zip(cases, query_gen(reqs)):
+        try:
+            b = EAM_Potential_Builder(cp, Potential_Form_Registry(cp, register_standard=True), Modifier_Registry(), rd, add_undefined=add_undefined)
+            real = []
+            for e in b.eam_potentials:
+                dec = lambda f: int(round((f(1.0) - 1.0) / 64.0)) if f(1.0) != 0.0 else 0
+                real.append([e.species, int(e.atomicNumber), common.fq(Fr(e.mass)), common.fq(Fr(e.latticeConstant)), str(e.latticeType), dec(e.embeddingFunction), dec(e.electronDensityFunction)])
+        except ConfigurationException as e:
+            m = str(e)
+            real = "speciesMismatch" if "do not match" in m else ("noMass" if "atomic mass" in m else ("noAtomicNumber" if "atomic number" in m else "other: " + m[:80]))
+        run.traces += 1
+        run.dist["translator-validation/eam_builder"] += 1
+        if real != a:
+            bad += 1
+            if bad <= 2:
+                run.tie_broken("translator", "generated EAM_Potential_Builder vs the real one", "model %r (add_undefined=%s): real %s generated %s" % (text[95:400], add_undefined, real, a))
+    return len(cases)
